@@ -30,7 +30,7 @@ void DecodeRES(Word Code) {
         tSymbolFlags Flags;
         Word         Size;
 
-        Size = EvalStrIntExpressionWithFlags(&ArgStr[1], Int16, &ValOK, &Flags);
+        Size = EvalStrIntExpressionWithFlags(&ArgStr[1], UInt16, &ValOK, &Flags);
         if (mFirstPassUnknown(Flags)) {
             WrError(ErrNum_FirstPassCalc);
         }
